@@ -95,7 +95,9 @@ impl Num {
 
     pub(crate) fn length(&self) -> Self {
         match self {
-            Self::Int(i) => Self::Int(i.abs()),
+            Self::Int(i) => i
+                .checked_abs()
+                .map_or_else(|| Self::big_int(-BigInt::from(*i)), Self::Int),
             Self::BigInt(i) => match i.sign() {
                 Sign::Plus | Sign::NoSign => Self::BigInt(i.clone()),
                 Sign::Minus => Self::BigInt(BigInt::from(i.magnitude().clone()).into()),
